@@ -10,6 +10,7 @@ import (
 	"strings"
 	"sync"
 	"sync/atomic"
+	"unsafe"
 
 	"github.com/grafana/cog/internal/ast"
 	"github.com/grafana/cog/verifx/refl"
@@ -253,6 +254,49 @@ func builderInvariant(sch ast.Schemas, b *ast.Builder) []viol {
 	return out
 }
 
+// aliasProbe looks for assignment paths of ONE option (or constructor) whose
+// slices share backing-array slots: writing or appending through one of them
+// silently rewrites the other ("every assignment path ... still names an
+// existing chain of fields" then only holds by accident). Paths shared between
+// two options are not reported: unfold_boolean hands the path of the original
+// option to both new options and nothing is wrong with the result.
+func aliasProbe(builders []ast.Builder) []viol {
+	var out []viol
+	type span struct{ lo, hi uintptr }
+	spanOf := func(p ast.Path) (span, bool) {
+		if cap(p) == 0 {
+			return span{}, false
+		}
+		lo := uintptr(unsafe.Pointer(unsafe.SliceData(p)))
+		return span{lo, lo + uintptr(cap(p))*unsafe.Sizeof(ast.PathItem{})}, true
+	}
+	for bi := range builders {
+		b := &builders[bi]
+		check := func(where string, asg []ast.Assignment) {
+			var spans []span
+			for ai := range asg {
+				sp, ok := spanOf(asg[ai].Path)
+				if !ok {
+					continue
+				}
+				for _, other := range spans {
+					if sp.lo < other.hi && other.lo < sp.hi {
+						out = append(out, viol{Clause: "two assignment paths of one option share a backing array", Desc: "alias|" + b.For.Name + "|" + where,
+							What: fmt.Sprintf("builder %s.%s %s: assignment #%d (path %s) shares its backing array with an earlier assignment", b.Package, b.Name, where, ai, pathString(asg[ai].Path))})
+						break
+					}
+				}
+				spans = append(spans, sp)
+			}
+		}
+		check("constructor", b.Constructor.Assignments)
+		for oi := range b.Options {
+			check("option "+b.Options[oi].Name, b.Options[oi].Assignments)
+		}
+	}
+	return out
+}
+
 var invCache sync.Map // seed index + builder canon hash -> []viol
 var assignmentsCovered atomic.Int64
 
@@ -279,7 +323,7 @@ func invariant(seed *Seed, st *State) []viol {
 		}
 		out = append(out, v...)
 	}
-	return out
+	return append(out, aliasProbe(st.Builders)...)
 }
 
 func argNames(args []ast.Argument) []string {
